@@ -1,0 +1,11 @@
+//go:build verif
+
+package ssh
+
+import "golang.org/x/crypto/ssh/internal/bcrypt_pbkdf"
+
+// VerifC39BcryptPbkdf re-exports ssh/internal/bcrypt_pbkdf.Key to the /verif harness (property C39:
+// the harness derives the AES key of encrypted OpenSSH private keys to build files and oracles).
+func VerifC39BcryptPbkdf(password, salt []byte, rounds, keyLen int) ([]byte, error) {
+	return bcrypt_pbkdf.Key(password, salt, rounds, keyLen)
+}
